@@ -94,7 +94,7 @@ impl PPipe {
                 match r.below(12) {
                     0 => words.push("\n".to_string()),
                     1 => words.push("  ".to_string()),
-                    2 if plus => words.push(" # a comment\n".to_string()),
+                    2 if plus => words.push(r.pick(&[" # a comment\n", " # a comment (EPSG #4230) # and more\n", " ## doubled\n", " #\n"]).to_string()),
                     _ => words.push(" ".to_string()),
                 }
             }
@@ -237,6 +237,11 @@ pub fn generate(g: &mut Gen, thorough: bool) {
     for t in [
         "proj=pipeline step proj=utm zone=32 step init=epsg:4326",
         "proj=utm zone=32 init=epsg:25832",
+        "+proj=pipeline +init=epsg:25832 +step +proj=utm +zone=32",
+        "proj=pipeline init=epsg:25832 step proj=utm zone=32 step proj=addone",
+        "proj=pipeline ellps=intl init=epsg:25832 step proj=cart",
+        "proj=pipeline step proj=utm zone=32 init=epsg:25832 step proj=addone",
+        "+proj=pipeline # a comment with a second # in it\n+step +proj=addone\n+step +proj=helmert +x=3 # (EPSG #1234) shift\n+step +proj=addone +inv",
         "init=epsg:25832 proj=utm zone=32",
         "proj=pipeline step proj=pipeline step proj=utm zone=32",
         "proj=pipeline step proj=utm zone=32 step proj=pipeline",
